@@ -156,6 +156,29 @@ def rule_algid(ctx, prop: str) -> RuleResult:
             res.sample(f"fold table: {op!r} -> {ast.unparse(v)}")
             if not ok:
                 res.add(Finding("ALGID", m.rel, v.lineno, "operations", f"fold:{op}", f"literal index operands of `{op}` are folded with `{ast.unparse(v)}`: Exo's index `/` is floor division and `%` floor modulus (7 / 2 must fold to 3, not 3.5)"))
+    if prop in ("C02", "C08", "C12", "C14", "C15"):
+        # the range analysis that decides between C `/` and exo_floor_div (and feeds simplify) bounds a
+        # quotient by FLOOR division of the numerator's bounds; truncation toward zero turns the range
+        # of (i - 3) / 4, i >= 0, into [0, ..] and a negative quotient is emitted as plain C `/`
+        RA = "src/exo/rewrite/range_analysis.py"
+        c_ = ix.module(RA).cls("IndexRange")
+        fd = c_.methods.get("__floordiv__") if c_ else None
+        if fd is None:
+            raise AnalysisError("anchor vanished: IndexRange.__floordiv__")
+        res.analysed.append(f"{RA}:IndexRange.__floordiv__")
+        divs = [k for k in fd.body_nodes() if isinstance(k, ast.BinOp) and isinstance(k.op, (ast.Div, ast.FloorDiv))]
+        for k in divs:
+            res.instances += 1
+            res.nontrivial += 1
+            ok = isinstance(k.op, ast.FloorDiv)
+            res.ob(ok)
+            res.sample(f"IndexRange.__floordiv__: `{ast.unparse(k)}` floors: {ok}")
+            if not ok:
+                res.add(Finding("ALGID", RA, k.lineno, "IndexRange.__floordiv__", f"range:{ast.unparse(k)[:30]}",
+                                f"the bound of a quotient is computed with `{ast.unparse(k)}` (true division / truncation) instead of floor division: the range of (i - 3) / 4 for i >= 0 "
+                                f"becomes [0, ..], the compiler 'proves' the quotient non-negative and emits plain C `/` where exo_floor_div is needed"))
+        if len(divs) < 2:
+            raise AnalysisError("ALGID: expected the two bound divisions in IndexRange.__floordiv__")
     if prop == "C12":
         f = ix.func("src/exo/rewrite/LoopIR_scheduling.py", "DoSimplify.cfold")
         res.instances += 1
